@@ -49,7 +49,12 @@ def _program(draw):
     if kind in ('gen', 'iter', 'agen'):
         fail_at = draw(st.sampled_from([None, None] + list(range(n + 1))))
         delay = draw(st.sampled_from([0, 0, 0.25]))
-    return {'dir': direction, 'src': {'kind': kind, 'elems': elems, 'fail_at': fail_at, 'delay': delay},
+    fail_kind = 'exc'
+    if fail_at is not None and kind == 'agen':
+        # an asynchronous source may also fail with a cancellation (it awaited something that was cancelled)
+        # or with a BaseException: "that same exception" reaches the consumer whatever its type
+        fail_kind = draw(st.sampled_from(['exc', 'exc', 'cancel', 'base']))
+    return {'dir': direction, 'src': {'kind': kind, 'elems': elems, 'fail_at': fail_at, 'delay': delay, 'fail_kind': fail_kind},
             'cdelay': draw(st.sampled_from([0, 0, 1 / 64, 0.25])),
             'loop': draw(st.sampled_from(['none', 'fresh'])) if direction == 'a2s' else 'none'}
 
@@ -73,6 +78,8 @@ def valid(case):
         if s['kind'] in ('list', 'tuple', 'range') and (s.get('fail_at') is not None or s.get('delay')):
             return False
         if s.get('fail_at') is not None and not (0 <= s['fail_at'] <= len(s['elems'])):
+            return False
+        if s.get('fail_kind', 'exc') not in ('exc', 'cancel', 'base') or (s.get('fail_kind', 'exc') != 'exc' and s['kind'] != 'agen'):
             return False
         return s.get('delay', 0) >= 0 and case['cdelay'] >= 0 and case.get('loop', 'none') in ('none', 'fresh')
     except (KeyError, TypeError):
